@@ -43,6 +43,7 @@ func run(c *vf.Ctx) {
 	restore := smbgen.Silence()
 	defer restore()
 	u := smbgen.Setup(c, restore)
+	smbgen.Cheap = c.Pick(4, 2) // quick: bound 3 over the first four values of every lattice; thorough: bound 4 over the first two
 	c.Rule("for each of the command structures reachable from the two factories: every assignment within 2 (thorough 3) deviations of the all-default " +
 		"base and within 1 (thorough 2) of the all-non-default base; a deviation sets one free field to one value of its lattice (integers: byte-distinct " +
 		"values of the width and all-ones; byte strings: lengths 1,2,3,4,255,256; strings in the buffer format MS-CIFS prescribes; dates, times, arrays, " +
@@ -58,9 +59,9 @@ func run(c *vf.Ctx) {
 		w := &worker{c: c, t: tally, cmd: cmd, lat: cmd.Lattices(c.Thorough())}
 		w.prepare()
 		for _, full := range []bool{false, true} {
-			bound := c.Pick(2, 3)
+			bound := c.Pick(3, 4)
 			if full {
-				bound = c.Pick(1, 2)
+				bound = c.Pick(2, 3)
 			}
 			st, err := smbgen.Enumerate(cmd, w.lat, full, bound, c.DeadlineExceeded, w.eval)
 			if err != nil {
@@ -89,7 +90,7 @@ func run(c *vf.Ctx) {
 	c.Set("choice_points", points)
 	c.Set("distinct_outcomes_sum_over_commands", outcomes)
 	c.Set("assignments_rejected_as_inconsistent", rejected)
-	c.Set("deviation_bound_completed", map[string]int{"zero_base": c.Pick(2, 3), "full_base": c.Pick(1, 2)})
+	c.Set("deviation_bound_completed", map[string]int{"zero_base": c.Pick(3, 4), "full_base": c.Pick(2, 3)})
 	tally.Publish()
 }
 
